@@ -17,7 +17,7 @@ RULE = (
     "batch; (testgrad) exact GP / SVGP posterior mean+variance w.r.t. test inputs vs finite differences; distinct = cell without seed; "
     "non-trivial iff the reference gradient is > 1e-8 somewhere"
 )
-REQUIRED = ["fast_backward_matches_oracle", "fast_equals_generic", "fast_backward_matches_fd", "logcdf_backward", "natural_backward_is_natural_gradient", "tril_natural_backward", "ciq_ngd_backward", "test_input_gradient", "monitor:RBFCovariance.backward", "monitor:MaternCovariance.backward"]
+REQUIRED = ["input_gradient_matches_oracle", "fast_backward_matches_oracle", "fast_equals_generic", "fast_backward_matches_fd", "logcdf_backward", "natural_backward_is_natural_gradient", "tril_natural_backward", "ciq_ngd_backward", "test_input_gradient", "monitor:RBFCovariance.backward", "monitor:MaternCovariance.backward"]
 ASSUMPTIONS = ["at coincident points (r = 0) Matern-1/2 is not differentiable: the generic path's sub-gradient convention (0 contribution) is the reference there", "finite differences: central, step 1e-6, compared at 1e-5 relative"]
 ANCHOR_FILES = ["gpytorch/functions/", "gpytorch/variational/natural_variational_distribution.py", "gpytorch/variational/tril_natural_variational_distribution.py", "gpytorch/variational/ciq_variational_strategy.py", "gpytorch/kernels/rbf_kernel.py", "gpytorch/kernels/matern_kernel.py"]
 
@@ -28,6 +28,8 @@ def cases(tier, seed):
     for _ in range(reps):
         for kern, b, regime, coinc in itertools.product(["rbf", "matern0.5", "matern1.5", "matern2.5"], [[], [2], [3, 2]], ["mid", "small", "large"], [False, True]):
             yield {"kind": "kernel", "kernel": kern, "batch": b, "regime": regime, "coincident": coinc, "seed": rnd.randrange(10**6)}
+        for kern, rel, b in itertools.product(["rbf", "matern1.5", "matern2.5", "rq", "periodic", "scale_matern2.5"], ["diff", "same_object", "equal_copy", "equal_copy_both_grad"], [[], [2]]):
+            yield {"kind": "kernel_xgrad", "kernel": kern, "rel": rel, "batch": b, "seed": rnd.randrange(10**6)}
         for c in range(3):
             yield {"kind": "logcdf", "chunk": c, "seed": rnd.randrange(10**6)}
         for b, M in itertools.product([[], [2], [3, 2]], [1, 3, 5]):
@@ -73,7 +75,7 @@ def run_case(case, ctx):
     from vf import util
 
     g = util.gen(case["seed"])
-    return {"kernel": _kernel, "logcdf": _logcdf, "natural": _natural, "trilnatural": _tril, "ciq": _ciq, "testgrad": _testgrad}[case["kind"]](case, ctx, g)
+    return {"kernel": _kernel, "kernel_xgrad": _kernel_xgrad, "logcdf": _logcdf, "natural": _natural, "trilnatural": _tril, "ciq": _ciq, "testgrad": _testgrad}[case["kind"]](case, ctx, g)
 
 
 def _kernel(case, ctx, g):
@@ -158,6 +160,67 @@ def _kernel(case, ctx, g):
         kern.raw_lengthscale.copy_(flat.reshape(raw.shape))
     ctx.close("fast_backward_matches_fd", g_fast, fd, (1e-5, 1e-5) if not (name == "matern0.5" and case["coincident"]) else (1e-3, 1e-3), cls=cls)
     ctx.cell({k: v for k, v in case.items() if k != "seed"}, nontrivial=float(g_ref.abs().max()) > 1e-8)
+
+
+def _kernel_xgrad(case, ctx, g):
+    """gradient of a kernel matrix with respect to its FIRST argument (test inputs, learnable inducing points), when the
+    second argument is another tensor, the same tensor object, or a distinct tensor holding equal values (then only the
+    first role moves). Reference: autograd through the C05 oracle formulas."""
+    import torch
+
+    import gpytorch
+    from gpytorch import settings as S
+    from vf import util
+    from vf.oracle import kernels as O
+
+    K = gpytorch.kernels
+    b, name = case["batch"], case["kernel"]
+    B = torch.Size(b)
+    kern = {"rbf": lambda: K.RBFKernel(batch_shape=B), "matern1.5": lambda: K.MaternKernel(nu=1.5, batch_shape=B), "matern2.5": lambda: K.MaternKernel(nu=2.5, batch_shape=B),
+            "rq": lambda: K.RQKernel(batch_shape=B), "periodic": lambda: K.PeriodicKernel(batch_shape=B), "scale_matern2.5": lambda: K.ScaleKernel(K.MaternKernel(nu=2.5, batch_shape=B), batch_shape=B)}[name]()
+    util.randomize(kern, g, 0.4)
+    n, d = 4, 2
+    x1 = util.randn(g, *b, n, d).requires_grad_(True)
+    rel = case["rel"]
+    if rel == "diff":
+        x2 = util.randn(g, *b, 3, d)
+    elif rel == "same_object":
+        x2 = x1
+    else:
+        x2 = x1.detach().clone().requires_grad_(rel == "equal_copy_both_grad")
+    G = util.randn(g, *b, n, x2.shape[-2])
+
+    def safe_matern(k_, a, c):
+        import math
+
+        r2 = O._r2(k_, a, c)
+        pos = r2 > 0
+        r = torch.where(pos, torch.where(pos, r2, torch.ones_like(r2)).sqrt(), torch.zeros_like(r2))
+        s_ = math.sqrt(2 * k_.nu) * r
+        return {1.5: (1 + s_) * torch.exp(-s_), 2.5: (1 + s_ + s_**2 / 3) * torch.exp(-s_)}[k_.nu]
+
+    def oracle(a, c):
+        if name.startswith("matern"):
+            return safe_matern(kern, a, c)
+        if name == "scale_matern2.5":
+            o = kern.outputscale.detach()
+            return o.reshape(*o.shape, 1, 1) * safe_matern(kern.base_kernel, a, c)
+        return O.dense(kern, a, c)
+
+    a = x1.detach().clone().requires_grad_(True)
+    c = a if rel == "same_object" else x2.detach().clone()
+    (g_ref,) = torch.autograd.grad((oracle(a, c) * G).sum(), a)
+    for mode, ctxs in (("lazy", [S.lazily_evaluate_kernels(True)]), ("eager", [S.lazily_evaluate_kernels(False)]), ("trace", [S.trace_mode(True)])):
+        import contextlib
+
+        with contextlib.ExitStack() as st:
+            for c_ in ctxs:
+                st.enter_context(c_)
+            out = kern(x1, x2).to_dense()
+            (g_got,) = torch.autograd.grad((out * G).sum(), x1, allow_unused=True)
+        g_got = torch.zeros_like(x1) if g_got is None else g_got
+        ctx.close("input_gradient_matches_oracle", g_got, g_ref, (1e-7, 1e-7), cls=f"{name}:{rel}:{mode}", rel=rel, mode=mode, kernel=name)
+    ctx.cell({k: v for k, v in case.items() if k != "seed"})
 
 
 def _logcdf(case, ctx, g):
